@@ -43,6 +43,11 @@ w("D6", "hash set contains divided by zero on an all-zero or capacity-zero set (
 w("D7", "array set length prefix overflowed with more slots than the prefix can count (fixed 51e4ad4)", ["C12", "C03", "C09", "C04"],
   "aset type=A8u16 slots=300 vals=" + ",".join(str(k) for k in range(300)),
   [f"ins {k}" for k in range(258)] + ["rlen", "full", "rhas 255", "rhas 256", "take 0", "ins 256", "rlen"])
+# D11: a length prefix larger than the slot count (truncated / foreign buffer): u8 prefix 3 over 2 slots, u16 prefix over 1 slot
+w("D11", "array set trusted a length prefix larger than the number of value slots: out-of-bounds raw copy (fixed c509816)", ["C05", "C12"],
+  "aset type=A8u8 slots=2 vals=1,2,9,10", ["state x030909", "rlen", "ins 1", "rem 9", "take 9", "ins 10", "rview", "has 9", "rhas 1"], nodriver=True)
+w("D11b", "same, 16-bit prefix and 4-byte elements, prefix far beyond the buffer", ["C05", "C12"],
+  "aset type=A16u32 slots=1 vals=1,2,9", ["state xff0009000000", "rlen", "ins 1", "take 9", "ins 2", "rview"], nodriver=True)
 w("D8", "prefix str copy_from_str split a multi-byte character (fixed 8a60168)", ["C11", "C13"],
   "pstr w=1 size=5 chars=1", ["new", "copy " + blob("abcé"), "load", "copy " + blob("€€"), "copy " + blob("a")])
 w("D8b", "same, 16-bit prefix", ["C11", "C13"],
